@@ -1,0 +1,48 @@
+//! Virtual clock. Off by default (0); when on, all four time functions of
+//! `utils::time` read / advance this counter instead of the wall clock.
+
+use std::sync::atomic::{AtomicU64, Ordering};
+use std::sync::Mutex;
+
+static NOW_NS: AtomicU64 = AtomicU64::new(0);
+static SLEEPS: Mutex<Vec<u64>> = Mutex::new(Vec::new());
+
+/// Switch the virtual clock on at `ns` nanoseconds since the epoch (0 switches it off).
+pub fn set_ns(ns: u64) {
+    NOW_NS.store(ns, Ordering::SeqCst);
+}
+
+pub fn set_ms(ms: u64) {
+    set_ns(ms * 1_000_000);
+}
+
+pub fn off() {
+    set_ns(0);
+}
+
+pub fn advance_ns(ns: u64) {
+    NOW_NS.fetch_add(ns, Ordering::SeqCst);
+}
+
+pub fn advance_ms(ms: u64) {
+    advance_ns(ms * 1_000_000);
+}
+
+#[inline]
+pub fn now_ns() -> Option<u64> {
+    match NOW_NS.load(Ordering::SeqCst) {
+        0 => None,
+        ns => Some(ns),
+    }
+}
+
+/// Called by the virtual `sleep_for_*`: advances the clock and remembers the request.
+pub fn sleep_ns(ns: u64) {
+    advance_ns(ns);
+    SLEEPS.lock().unwrap().push(ns);
+}
+
+/// Sleeps requested since the last call (nanoseconds each).
+pub fn take_sleeps() -> Vec<u64> {
+    std::mem::take(&mut *SLEEPS.lock().unwrap())
+}
